@@ -10,6 +10,7 @@ import inspect
 import io
 import keyword
 import logging
+import operator
 import sys
 import time
 import traceback
@@ -201,6 +202,26 @@ BUILTIN_AST_FUNCS_FACTORY = {
 # Objects returned by return, break and continue statements that change execution flow,
 # or objects returned that capture particular information
 #
+#
+# in-place operator for each augmented assignment operator
+#
+AUGASSIGN_OPS = {
+    ast.Add: operator.iadd,
+    ast.Sub: operator.isub,
+    ast.Mult: operator.imul,
+    ast.MatMult: operator.imatmul,
+    ast.Div: operator.itruediv,
+    ast.Mod: operator.imod,
+    ast.Pow: operator.ipow,
+    ast.LShift: operator.ilshift,
+    ast.RShift: operator.irshift,
+    ast.BitOr: operator.ior,
+    ast.BitXor: operator.ixor,
+    ast.BitAnd: operator.iand,
+    ast.FloorDiv: operator.ifloordiv,
+}
+
+
 class EvalStopFlow:
     """Denotes a statement or action that stops execution flow, eg: return, break etc."""
 
@@ -1431,10 +1452,25 @@ class AstEval:
 
     async def ast_augassign(self, arg):
         """Execute augmented assignment statement (lhs <BinOp>= value)."""
-        arg.target.ctx = ast.Load()
-        new_val = await self.aeval(ast.BinOp(left=arg.target, op=arg.op, right=arg.value))
-        arg.target.ctx = ast.Store()
-        await self.recurse_assign(arg.target, new_val)
+        # the target's sub-expressions are evaluated once and the in-place operator is applied, as in Python
+        in_place = AUGASSIGN_OPS[type(arg.op)]
+        target = arg.target
+        if isinstance(target, ast.Subscript):
+            var = await self.aeval(target.value)
+            index = await self.aeval(target.slice)
+            old_val = var[index]
+            var[index] = in_place(old_val, await self.aeval(arg.value))
+            return
+        if isinstance(target, ast.Attribute) and await self.ast_attribute_collapse(target) is None:
+            # attribute of an object (not a dotted state-variable name)
+            obj = await self.aeval(target.value)
+            old_val = getattr(obj, target.attr)
+            setattr(obj, target.attr, in_place(old_val, await self.aeval(arg.value)))
+            return
+        target.ctx = ast.Load()
+        old_val = await self.aeval(target)
+        target.ctx = ast.Store()
+        await self.recurse_assign(target, in_place(old_val, await self.aeval(arg.value)))
 
     async def ast_annassign(self, arg):
         """Execute type hint assignment statement and track __annotations__."""
